@@ -148,6 +148,7 @@ def mkParams (ty : Ty) (req : Req) (mode : String) : Option Params :=
   | "prac" => some { req, compat, nkm := ty.nkm }
   | "oer" => some { req, compat, nkm := ty.nkm, strictOER := true }
   | "per" => some { req, compat, nkm := ty.nkm, strictPER := true }
+  | "table" => some { req, compat, nkm := ty.nkm, rootOnly := true }     -- the PER tables: emit_member_PER_constraints
   | _ => none
 
 def showRes (p : Params) (r : Res) : String :=
@@ -189,7 +190,7 @@ def run : Handler
   | "pertable" :: req :: ty :: rest => some <|
     match parseTy ty, parseReq req, parseTop rest with
     | some ty, some req, some ct =>
-      match mkParams ty req "prac" with
+      match mkParams ty req "table" with
       | some p =>
         (match hardErr (computeTop p ct) with
          | some e => e
